@@ -121,36 +121,64 @@ Definition fcase_prop_ok (c : fcase) : bool :=
 (* ---------- E: the real proxy in-process with scripted parties *)
 (* what was seen for one request: every address handed to the dialer (after connect-to), and what the
    party that accepted the connection saw first: TLS or not, then which protocol *)
-Record obs := { o_dials : list str; o_recv : option (bool * wire); o_ok : bool (* client got 2xx *) }.
-Definition obs_outcome (o : obs) : option outcome :=
+Record obs := { o_dials : list str; o_recv : option (str * bool * wire); o_ok : bool (* client got 2xx *) }.
+
+Definition event_eqb (x y : event) : bool :=
+  match x, y with
+  | EvDial a, EvDial c => str_eqb a c
+  | EvUse a t w, EvUse c t' w' => str_eqb a c && Bool.eqb t t' && wire_eqb w w'
+  | _, _ => false
+  end.
+Fixpoint events_eqb (x y : list event) : bool :=
+  match x, y with
+  | [], [] => true
+  | a :: x', c :: y' => event_eqb a c && events_eqb x' y'
+  | _, _ => false
+  end.
+
+(* the observed trace: every address handed to the socket layer, then the party that received data *)
+Definition obs_trace (o : obs) : list event :=
+  map EvDial (o_dials o) ++ match o_recv o with Some (a, tls, w) => [EvUse a tls w] | None => [] end.
+(* the client sees success exactly when some party was used *)
+Definition obs_consistent (o : obs) : bool :=
+  Bool.eqb (o_ok o) (match o_recv o with Some _ => true | None => false end).
+Definition obs_is (o : obs) (tr : list event) : bool := events_eqb (obs_trace o) tr && obs_consistent o.
+
+(* first hop as observed (for the agreement check): Some None = failed without contacting anybody *)
+Definition obs_first_hop (o : obs) : option (option (str * bool * role)) :=
   match o_dials o, o_recv o with
-  | [], None => if o_ok o then None else Some OFail
-  | a :: r, Some (tls, w) => if forallb (str_eqb a) r && o_ok o then Some (OSent a tls w) else None
+  | [], None => Some None
+  | _, Some (a, tls, w) => Some (first_hop (OSent a tls w))
   | _, _ => None
   end.
-Definition obs_is (o : obs) (x : outcome) : bool :=
-  match obs_outcome o with Some y => outcome_eqb x y | None => false end.
 
 (* per case: one host, exercised by a plain http request, a CONNECT (+ inner request), an https request in
    absolute form, and (configurations with MITM) a request inside the MITM'd tunnel *)
 Record ecase := { ec_cfg : cfgd; ec_rules : list rule;
+                  ec_attempts : nat; ec_failures : nat;   (* Dialer retry setting; scripted dial failures per request *)
                   ec_plain : option (target * obs); ec_connect : option (target * obs);
                   ec_tls : option (target * obs); ec_mitm : option (target * obs) }.
-Definition part_ok (f : config -> list rule -> target -> outcome) (c : ecase) (p : option (target * obs)) : bool :=
-  match p with Some (t, o) => obs_is o (f (cfg_of (ec_cfg c)) (ec_rules c) t) | None => true end.
+Definition part_ok (f : config -> list rule -> target -> nat -> nat -> list event) (c : ecase)
+                   (p : option (target * obs)) : bool :=
+  match p with
+  | Some (t, o) => obs_is o (f (cfg_of (ec_cfg c)) (ec_rules c) t (ec_attempts c) (ec_failures c))
+  | None => true
+  end.
 Definition ecase_model_ok (c : ecase) : bool :=
-  part_ok route c (ec_plain c) && part_ok route c (ec_connect c) &&
-  part_ok route c (ec_tls c) && part_ok route c (ec_mitm c).
-(* the property: each request reaches exactly the party the short spec names (or fails when it says so),
-   and the plain request and the CONNECT for the same host agree on the first hop *)
+  part_ok exchange c (ec_plain c) && part_ok exchange c (ec_connect c) &&
+  part_ok exchange c (ec_tls c) && part_ok exchange c (ec_mitm c).
+(* the property: each request's socket events are exactly the spec's (one party: the one the short spec names,
+   or nobody when it says the request fails), and the plain request and the CONNECT for the same host agree
+   on the first hop *)
 Definition ecase_prop_ok (c : ecase) : bool :=
-  part_ok spec_route c (ec_plain c) && part_ok spec_route c (ec_connect c) &&
-  part_ok spec_route c (ec_tls c) && part_ok spec_route c (ec_mitm c) &&
+  part_ok spec_exchange c (ec_plain c) && part_ok spec_exchange c (ec_connect c) &&
+  part_ok spec_exchange c (ec_tls c) && part_ok spec_exchange c (ec_mitm c) &&
   match ec_plain c, ec_connect c with
   | Some (tp, op), Some (tc, oc) =>
-      if str_eqb (t_scheme tp) (b "http") && str_eqb (spec_target_addr tp) (spec_target_addr tc) then
-        match obs_outcome op, obs_outcome oc with
-        | Some x, Some y => first_hop_eqb (first_hop x) (first_hop y)
+      if str_eqb (t_scheme tp) (b "http") && str_eqb (spec_target_addr tp) (spec_target_addr tc) &&
+         Nat.ltb (ec_failures c) (effective_attempts (ec_attempts c)) then
+        match obs_first_hop op, obs_first_hop oc with
+        | Some x, Some y => first_hop_eqb x y
         | _, _ => false
         end
       else true
